@@ -46,3 +46,22 @@ func ForConds(s *common.SrcFile, fn, substr string) ([]ast.Expr, error) {
 	})
 	return out, nil
 }
+
+// AssignsTo returns, in source order, the right-hand sides of all single
+// assignments (`x := e`, `x = e`) to identifier ident inside function fn.
+func AssignsTo(s *common.SrcFile, fn, ident string) ([]ast.Expr, error) {
+	fd, err := s.FindFunc(fn)
+	if err != nil {
+		return nil, err
+	}
+	var out []ast.Expr
+	ast.Inspect(fd.Body, func(n ast.Node) bool {
+		if as, ok := n.(*ast.AssignStmt); ok && len(as.Lhs) == 1 && len(as.Rhs) == 1 {
+			if id, ok := as.Lhs[0].(*ast.Ident); ok && id.Name == ident && (as.Tok.String() == ":=" || as.Tok.String() == "=") {
+				out = append(out, as.Rhs[0])
+			}
+		}
+		return true
+	})
+	return out, nil
+}
